@@ -106,7 +106,11 @@ def rule_dba_py(ctx, m):
         pathv = st.iter
         srcs = [s_ for s_ in walk_stmts(main.body) if s_.k == 'assign' and s_.target == pathv]
         ok_args = bool(srcs) and all(s_.value[0] == 'call' and s_.value[2][:2] == (('var', 'c'), seqv) for s_ in srcs)
-        ctx.check(ok_args, 'R-PATH', file, 'dba', 'path arguments', 'every warping path must be computed between (current average c, series): position i of the pair indexes the average', main.line)
+        unknown = [fmt(s_.value[1]) for s_ in srcs if s_.value[0] == 'call' and not (dotted(s_.value[1]) or '').split('.')[-1].startswith('warping_path')]
+        if ok_args and unknown:
+            ctx.undecided('R-PATH', 'dba path arguments', 'the path comes from %s, not from a warping-path routine' % unknown)
+        else:
+            ctx.check(ok_args, 'R-PATH', file, 'dba', 'path arguments', 'every warping path must be computed between (current average c, series): position i of the pair indexes the average', main.line)
     ctx.check(ok, 'R-PATH', file, 'dba', 'accumulation', 'each path pair (i, j) must append seq[j] to assoctab[i] exactly once', main.line)
     # mean
     okm = False
@@ -906,6 +910,39 @@ def _offset2(rd_idx, tgt_idx, env):
         (ba, ka), (bb, kb) = val(a), val(b)
         out.append(ka - kb if ba == bb else None)
     return tuple(out)
+
+
+def rule_lc_trace_stop(ctx, m):
+    """LocalConcurrences.best_path (pure-Python trace of a local-concurrence match): the trace continues only into a POSITIVE cell -- clipped cells are 0 and
+    consumed cells negative, so the guard that ends the trace must fire for a best predecessor <= 0 (non-strict), not only for a negative one."""
+    from ..ir import orient
+    mod = m.py('dtaidistance.subsequence.localconcurrences')
+    f = mod.funcs.get('LocalConcurrences.best_path')
+    if f is None:
+        raise AnalysisError('anchor vanished: LocalConcurrences.best_path')
+    loops = [s for s in walk_stmts(f.body) if s.k == 'while']
+    if not loops:
+        raise AnalysisError('unrecognised shape: no trace loop in LocalConcurrences.best_path')
+    lp = loops[0]
+    guards = []
+    for s in lp.body:
+        if s.k == 'if' and s.then and s.then[-1].k == 'break':
+            c, neg = s.cond, False
+            while c[0] == 'un' and c[1] == 'not':
+                c, neg = c[2], not neg
+            o = orient(c, lambda e: e != ('num', 0) and e != ('num', 0.0))
+            if o is not None and o[2] in (('num', 0), ('num', 0.0)):
+                op = o[0]
+                if neg:
+                    op = {'<': '>=', '<=': '>', '>': '<=', '>=': '<'}[op]
+                guards.append((op, o[1], s))
+    if not guards:
+        ctx.undecided('R-PATH', 'LocalConcurrences.best_path stop guard', 'no `if <value> <= 0: break` guard recognised in the trace loop')
+        return
+    op, val, s = guards[0]
+    ctx.check(op == '<=', 'R-PATH', mod.path, 'LocalConcurrences.best_path', 'trace stop guard',
+              'the trace must end when the best predecessor is not positive (`%s <= 0`); the guard tests `%s %s 0`, so the match runs on through clipped (zero) cells'
+              % (fmt(val)[:40], fmt(val)[:40], op), s.line)
 
 
 # ================================================================================================= C20
